@@ -83,32 +83,33 @@ def UnOp.eval (o : UnOp) (v : Int64) : Int64 :=
 
 abbrev EvRes := Res ExprErr (Int64 × Ctx)
 
-/-- `Expr::eval`.  The context is only read, except for the generator behind the `RefCell`. -/
-def evalE : Expr → Ctx → EvRes
-  | .num n, c => .ok (n, c)
-  | .var name, c =>
-    match c.get name with
+/-- `Expr::eval` over an arbitrary name lookup `get` (the `EvalContext::get` of the moment) and the
+generator, which is the only thing an evaluation changes (it sits behind a `RefCell`). -/
+def evalG (get : String → Option OutVal) : Expr → Rng → Res ExprErr (Int64 × Rng)
+  | .num n, g => .ok (n, g)
+  | .var name, g =>
+    match get name with
     | none => .err (.unassigned name)
-    | some (.val n) => .ok (n, c)
+    | some (.val n) => .ok (n, g)
     | some v => .err (.unexpectedValue name v)
-  | .un o e, c =>
-    match evalE e c with
-    | .ok (v, c') => .ok (o.eval v, c')
+  | .un o e, g =>
+    match evalG get e g with
+    | .ok (v, g') => .ok (o.eval v, g')
     | .err e => .err e
     | .panic s => .panic s
-  | .bin o l r, c =>
-    match evalE l c with
-    | .ok (a, c1) =>
-      match evalE r c1 with
-      | .ok (b, c2) =>
+  | .bin o l r, g =>
+    match evalG get l g with
+    | .ok (a, g1) =>
+      match evalG get r g1 with
+      | .ok (b, g2) =>
         match o.eval a b with
-        | some v => .ok (v, c2)
+        | some v => .ok (v, g2)
         | none => .err .divZero
       | .err e => .err e
       | .panic s => .panic s
     | .err e => .err e
     | .panic s => .panic s
-  | .call name args, c =>
+  | .call name args, g =>
     match funcArity name with
     | none => .panic "Function not found. This should have been found at parse time"
     | some ar =>
@@ -116,22 +117,29 @@ def evalE : Expr → Ctx → EvRes
       else if name = "random" then
         match args with
         | [a] =>
-          match evalE a c with
-          | .ok (max, c1) =>
+          match evalG get a g with
+          | .ok (max, g1) =>
             if max ≤ 1 then .err (.emptyRange max)
-            else .ok ((c1.rng.draw max).1, { c1 with rng := (c1.rng.draw max).2 })
+            else .ok (g1.draw max)
           | .err e => .err e
           | .panic s => .panic s
         | _ => .panic "args index"
       else if name = "ite" then
         match args with
         | [t, a, b] =>
-          match evalE t c with
-          | .ok (v, c1) => if v = 0 then evalE b c1 else evalE a c1
+          match evalG get t g with
+          | .ok (v, g1) => if v = 0 then evalG get b g1 else evalG get a g1
           | .err e => .err e
           | .panic s => .panic s
         | _ => .panic "args index"
       else .err .notImplemented
+
+/-- `Expr::eval` in an `EvalContext` -/
+def evalE (e : Expr) (c : Ctx) : EvRes :=
+  match evalG c.get e c.rng with
+  | .ok (v, g) => .ok (v, { c with rng := g })
+  | .err e => .err e
+  | .panic s => .panic s
 
 /-- bit `n` of `v`, as the entry `bits(k, e)` produces it -/
 def bitOf (v : Int64) (n : Nat) : REntry := .num ((v >>> Int64.ofNat n) &&& 1)
